@@ -2,6 +2,7 @@ import Vanguard.Model.Run
 import Vanguard.Lemmas.CleanStream
 import Vanguard.Lemmas.ReframeStream
 import Vanguard.Lemmas.RespStream
+import Vanguard.Lemmas.RespReframe
 import Vanguard.Model.World
 /-!
   C01 — Messages arrive intact across every protocol, codec and compression pairing.
@@ -156,5 +157,29 @@ theorem client_receives_exactly_the_messages (w : World) (tb : Tables) (se cc : 
     empty message under its own envelopes. -/
 example : respConvertedAll fakeWorld dSt .grpcServer .grpcWebClient [⟨0, 0, 0, 0, 2, [0x30, 0x37]⟩, ⟨0, 0, 0, 0, 0, []⟩]
     = some [0, 0, 0, 0, 1, 7, 0, 0, 0, 0, 0] := by decide +kernel
+
+/-- **The client receives exactly the backend's messages on the re-framing path** (response direction,
+    same codec and compression on both sides, streaming client): a backend that writes a whole well-formed
+    response stream makes the transcoder put exactly those payloads, untouched, each under the client's own
+    envelope (`respReframedAll`), in order, flushed, on the client's connection, without error or panic. -/
+theorem client_receives_exactly_the_messages_reframed (w : World) (tb : Tables) (se cc : Enveloper) (st : St) (fs : List Frame)
+    (hb : st.rw.buf = none) (hse : st.op.serverEnveloper = some se) (hcc : st.op.clientEnveloper = some cc)
+    (hok : ∀ x ∈ fs, x.ok se st.op.conf.maxMsg) :
+    (ewWrite w tb st {} (framesBytes fs)).2.2.1 = false ∧ (ewWrite w tb st {} (framesBytes fs)).2.2.2 = false ∧
+    rawBytes (ewWrite w tb st {} (framesBytes fs)).1.sink.items = rawBytes st.sink.items ++ respReframedAll se cc fs ∧
+    (fs ≠ [] → (ewWrite w tb st {} (framesBytes fs)).1.sink.flushedN
+                = some (ewWrite w tb st {} (framesBytes fs)).1.sink.items.length) :=
+  ewWrite_clean_stream w tb se cc st fs hb hse hcc hok
+
+/-- Non-vacuity (kernel-evaluated): the frames `00 00000002 | 07 08` and an empty one are legal for a gRPC
+    backend under the limit of `dSt`, and re-framed for a gRPC-Web client they keep their payloads. -/
+example : (∀ x ∈ [(⟨0, 0, 0, 0, 2, [7, 8]⟩ : Frame), ⟨0, 0, 0, 0, 0, []⟩], x.ok .grpcServer dSt.op.conf.maxMsg) ∧
+    respReframedAll .grpcServer .grpcWebClient [⟨0, 0, 0, 0, 2, [7, 8]⟩, ⟨0, 0, 0, 0, 0, []⟩] = [0, 0, 0, 0, 2, 7, 8, 0, 0, 0, 0, 0] := by
+  refine ⟨?_, by decide +kernel⟩
+  intro x hx
+  simp only [List.mem_cons, List.mem_nil_iff, or_false] at hx
+  rcases hx with rfl | rfl
+  · exact ⟨{ compressed := false, trailer := false, length := 2 }, by decide +kernel, rfl, rfl, by decide +kernel⟩
+  · exact ⟨{ compressed := false, trailer := false, length := 0 }, by decide +kernel, rfl, rfl, by decide +kernel⟩
 
 end Vanguard.C01
